@@ -85,3 +85,23 @@ func Note(s string)                           {}
 
 // Param returns the tier-specific bound from the obligation's spec.
 func Param(name string) int { return 0 }
+
+// ---- crash points ----
+
+// Crashable runs op.  If k >= 0 and op performs more than k file-system
+// mutations (OpenFile, CreateTemp, Remove, Rename, Encoder.Encode,
+// WriteFile), the process "crashes" immediately before mutation number k
+// (counting from 0): op is abandoned there, no deferred call runs, every
+// lock is gone.  Reports whether the crash happened.  What is on disk then is
+// what a restarted server finds.
+func Crashable(k int, op func()) bool {
+	crashBegin(k)
+	op()
+	return crashEnd()
+}
+
+func crashBegin(k int) {}
+func crashEnd() bool   { return false }
+
+// FSOps is the number of file-system mutations executed inside the last Crashable.
+func FSOps() int { return 0 }
